@@ -114,7 +114,10 @@ class Analyzer:
         """
         self.__circuit_built = self.circuit._build()
         n_modes = self.circuit.input_modes
-        if self.circuit.heralds["input"] != self.circuit.heralds["output"]:
+        heralds = self.circuit.heralds
+        if sorted(heralds["input"].values()) != sorted(
+            heralds["output"].values()
+        ):
             raise RuntimeError(
                 "Mismatch in number of heralds on the input/output modes, it "
                 "is likely this results from a herald being added twice or "
